@@ -217,14 +217,16 @@ class SeqGen:
 
     def sequence(self, sid, npos=(1, 3), nch=(1, 3), SR=None, N=None, raw_p=0.3, kinds=("ramp",), flags_p=0.0,
                  delays_p=0.0, filters_p=0.0, offsets=True, amp=None, sub_p=0.0, seq_p=0.3, permute=True,
-                 waits=0.0, markers=True, same_N=False, chan_pool=None, nseg=(1, 4), shuffle_p=0.3):
-        """ops creating a consistent sequence `sid`.  Returns (ops, info)."""
+                 waits=0.0, markers=True, same_N=False, chan_pool=None, nseg=(1, 4), shuffle_p=0.3, seq_sr_factor=1):
+        """ops creating a consistent sequence `sid`.  Returns (ops, info).
+        `seq_sr_factor`: the sequence's own sample rate is that multiple of its elements' (checkConsistency
+        compares the entries with each other, not with the sequence)."""
         r = self.r
         SR = SR if SR is not None else r.choice([1, 10, 100, 1e3, 2.5, 1e6, 1e9])
         pool = chan_pool or [1, 2, 3, 4, "A", "B", "ch1"]
         chans = r.sample(pool, r.randint(*nch))
         P = r.randint(*npos)
-        ops = [{"op": "sq.new", "id": sid}, {"op": "sq.setSR", "id": sid, "v": enc(SR)}]
+        ops = [{"op": "sq.new", "id": sid}, {"op": "sq.setSR", "id": sid, "v": enc(SR * seq_sr_factor)}]
         n_common = N if N is not None else r.randint(4, 30)
         info = {"SR": SR, "chans": chans, "P": P, "subs": {}, "els": {}}
         order_of_adding = list(range(1, P + 1))
